@@ -760,13 +760,18 @@ def gen_fit(rng):
 # -------------------------------------------------------------------------------------------------
 # D28: a fixed configuration on which the UNPENALISED likelihood decreases although the code is a correct MAP step
 
-D28_CASE = None   # filled below (found by search, proved in Lean: C15_plain_likelihood_can_decrease)
+# found by search; the same numbers are the Lean witness `C15_plain_likelihood_can_decrease`:
+# w after 1 pass = diag(7/16, 3/8), after 2 passes = diag(4/9, 1/3); the exact log-likelihood goes
+# 3 log(21/8) + 3 log(27/16) - 83/16 = -0.7225  ->  3 log(8/3) + 3 log(5/3) - 47/9 = -0.7473
+D28_CASE = {"kind": "fit", "N": 3, "K": 2, "assortative": True, "edges": [(0, 1), (0, 2)], "weights": [3, 3],
+            "u": [[3, 1], [2, 0], [1, 1]], "w": None, "w_prior": 1.0, "u_prior": 0.0, "max_hye_size": None,
+            "seed": 0, "w_init": [[1, 0], [0, 1]], "model_fit_upto": 3, "nmax": 3}
 
 
 def replay_known(ctx, drv):
     if D28_CASE is None:
         return
-    d28, liks = check_fit(ctx, drv, dict(D28_CASE), nmax=D28_CASE.get("nmax", 3), model_replay=False)
+    d28, liks = check_fit(ctx, drv, dict(D28_CASE), nmax=D28_CASE.get("nmax", 3), model_replay=True)
     if d28 is not None:
         n0, n1, p0, p1 = d28
         ctx.known("D28", f"call-site class 'w_prior > 0, metric = unpenalised likelihood': with w_prior={D28_CASE['w_prior']} the exact "
@@ -782,7 +787,7 @@ def replay_known(ctx, drv):
 def run(ctx):
     drv = ctx.driver() if ctx.model_available else None
     replay_known(ctx, drv)
-    n_closed, n_update, n_fit = ctx.scale(60, 1500), ctx.scale(80, 2500), ctx.scale(45, 900)
+    n_closed, n_update, n_fit = ctx.scale(60, 3000), ctx.scale(80, 5000), ctx.scale(45, 1800)
     streams = [(gen_closed, check_closed, n_closed), (gen_update, check_update, n_update), (gen_fit, check_fit, n_fit)]
     # interleave so that a short time budget still covers the three streams
     todo = []
